@@ -174,6 +174,23 @@ def gen_hist_des(rng):
     return {'kind': 'hist', 'start': start, 'steps': steps, 'seed': rng.randrange(10 ** 9)}
 
 
+def _cnames(m):
+    cs = m.statements.ode_system
+    return None if cs is None else list(cs.compartment_names)
+
+
+def _s_index(m):
+    """k of the S<k> in  F = A_<central>(t)/S<k>  (None when F is not scaled by exactly one S parameter)"""
+    cs = m.statements.ode_system
+    if cs is None:
+        return None
+    for s in m.statements.after_odes:
+        if str(s.symbol) == 'F':
+            ks = [x.name for x in sc.to_sympy(s.expression).free_symbols if re.fullmatch(r'S(\d+)', x.name)]
+            return int(ks[0][1:]) if len(ks) == 1 else None
+    return None
+
+
 def apply_history(spec):
     """Returns (model, applied steps, failed steps).  kwargs that were not fixed in the spec are drawn from the
     spec's own seed, then stored back so that a replay is exact."""
@@ -181,6 +198,7 @@ def apply_history(spec):
     rng = random.Random(spec['seed'])
     m = start_model(spec['start'])
     applied, failed = [], []
+    spec['_names'] = [_cnames(m)]
     for st in spec['steps']:
         fname, kw = st[0], st[1]
         if kw is None:
@@ -201,6 +219,7 @@ def apply_history(spec):
             continue
         m = m2
         applied.append(fname)
+        spec['_names'].append(_cnames(m))
     return m, applied, failed
 
 
@@ -578,7 +597,17 @@ def observe_hist(spec, perturb=None, mutate_code=None):
         return ct.lst([ct.tup(ct.nat(i), ct.nat(j), e) for i, j, e in l])
 
     ids = lambda l: ct.lst([names.p(x) for x in l])
-    term = ('(mkHt\n  ' + nm.toks_term(pk, names) + '\n  ' + nm.toks_term(des, names) + '\n  ' + nm.toks_term(err, names)
+    nh = spec.pop('_names', [None])
+    central = m.statements.ode_system.central_compartment.name if m.statements.ode_system is not None else 'CENTRAL'
+    if all(x is not None for x in nh):
+        cn = lambda l: ct.lst([names.p('cmt:' + x) for x in l])
+        k0 = _s_index(start_model(spec['start']))
+        k1 = _s_index(m)
+        sterm = (f"(mkS {names.p('cmt:OUTPUT')} {names.p('cmt:' + central)} {cn(nh[0])} {ct.lst([cn(x) for x in nh[1:]])} "
+                 f"{ct.opt(None if k0 is None else ct.nat(k0))} {ct.opt(None if k1 is None else ct.nat(k1))})")
+    else:
+        sterm = f"(mkS {names.p('cmt:OUTPUT')} {names.p('cmt:' + central)} [] [] None None)"
+    term = ('(mkHt ' + sterm + '\n  ' + nm.toks_term(pk, names) + '\n  ' + nm.toks_term(des, names) + '\n  ' + nm.toks_term(err, names)
             + '\n  (fun pk des err zero => mkH ' + ' '.join([
         ct.nat(advan), ct.nat(trans),
         '\n  pk des err',
